@@ -26,7 +26,9 @@ class PROP(Prop):
     targets = [f"{GIO}:ProxyIO.read", f"{GIO}:ProxyIO.write", f"{GIO}:ProxyIO._controll", f"{GIO}:ProxyIO.close_write", f"{GIO}:ProxyIO.close_read",
                f"{GIO}:ProxyIO.kill", f"{GIO}:ProxyIO.wait", FWD, f"{FWD}.forward_to_sub", f"{FWD}.control",
                f"io::{GB}:Popen2IO.read", f"io::{GB}:Popen2IO.write", f"io::{GSOCK}:SocketIO.read", f"io::{GSOCK}:SocketIO.write",
-               f"io::{GB}:Message.from_io", f"io::{GB}:Message.to_io"]
+               f"io::{GB}:Message.from_io", f"io::{GB}:Message.to_io",
+               # a half close is a half close on every transport (after exit() the initiator still receives what the worker's last tasks send)
+               f"io::{GB}:Popen2IO.close_write", f"io::{GB}:Popen2IO.close_read", f"io::{GSOCK}:SocketIO.close_write", f"io::{GSOCK}:SocketIO.close_read"]
     extra_worlds = {"io": cio.declare}
     assumptions = [
         "equivalence argument: a gateway's behaviour depends on its transport only through read/write/close_read/close_write/wait/kill; Popen2IO, SocketIO (C08) and ProxyIO are each shown to satisfy "
